@@ -66,15 +66,16 @@ Lemma nested_step : forall body, body_spec body -> body_mono body ->
   nested E C fault body h s = (r, o, h1, s1) ->
   s_tx s = Some (mkTx t (local ++ base)) -> gen_ok (s_gen s) (local ++ base) ->
   x_rb (s_fl s1) = false -> x_drop (s_fl s1) = false ->
-  (exists t1 local1 l, o = OC true l (cls_of r) (cls_of r) /\ Inv base true h s t local [o] h1 s1 t1 local1
+  h1 = h /\
+  ((exists t1 local1 l, o = OC true l (cls_of r) (cls_of r) /\ Inv base true h s t local [o] h s1 t1 local1
        /\ (forall avail, Sub avail (unames local) -> Sub avail (unames local1)))
-  \/ (exists e, r = RErr e /\ o = OC false [] CNil (CErr e) /\ Inv base false h s t local [o] h1 s1 t local).
+   \/ (exists e, r = RErr e /\ o = OC false [] CNil (CErr e) /\ Inv base true h s t local [o] h s1 t local)).
 Proof.
   intros body HB HM h s r o h1 s1 t local base H Htx Hg Hrb Hdr. unfold nested in H.
   destruct (c_nonest C) eqn:En.
   - (* nested transactions disabled: the function runs on the enclosing transaction *)
-    assert (Hn : nest = false) by (unfold nest; try rewrite En; reflexivity).
     destruct (body h s) as [[[r0 l0] h0] s0] eqn:Eb. inversion H; subst r o h1 s1. clear H.
+    split; [reflexivity|].
     destruct (HB _ _ _ _ _ _ t (local ++ base) Eb Htx Hg Hrb Hdr) as [t' [lc HI]].
     destruct HI as (A1 & A2 & A3 & A4 & A5 & A6 & A7 & A8 & A9 & nops & B1 & B2 & B3).
     cbn [app] in A2. rewrite En in A2; cbn [negb] in A2.
@@ -90,18 +91,18 @@ Proof.
     split. { apply prop_OC_same; exact A8. }
     split; [exact A9|].
     exists nops. split; [exact B1|]. split; [exact B2|].
-    intros Hh Hx. destruct (B3 Hh Hx) as (D1 & D2 & D3 & D4 & D5).
+    intros Hh. destruct (B3 Hh) as (D1 & D2 & D3 & D4 & D5).
     rewrite stmt_errs_OC, save_errs_OC. repeat split; auto.
-  - (* SAVEPOINT + deferred ROLLBACK TO *)
-    assert (Hn : nest = true) by (unfold nest; try rewrite En; reflexivity).
+  - (* SAVEPOINT + deferred ROLLBACK TO, both on a copy of the handle *)
     set (g := s_gen s) in *.
     destruct (h_sp E C fault true (NGen g) h (next_gen s)) as [h1' s1'] eqn:Es.
     assert (Htx' : s_tx (next_gen s) = Some (mkTx t (local ++ base))) by exact Htx.
     assert (Hg1 : gen_ok (S g) (local ++ base)).
     { eapply gen_ok_incl; [exact Hg | unfold g; lia | auto]. }
     destruct h1' as [e1|].
-    + (* the SAVEPOINT failed: Transaction returns its error without calling the function *)
-      inversion H; subst r o h1 s1. clear H.
+    + (* the SAVEPOINT failed: Transaction returns its error without calling the function;
+         the enclosing handle is untouched *)
+      inversion H; subst r o h1 s1. clear H. split; [reflexivity|].
       right. exists e1. split; [reflexivity|]. split; [reflexivity|].
       destruct (h_sp_cases E savepoint_pushes rollback_to_exact C fault _ _ _ _ _ _ _ Es Htx' Hdr)
         as [[e0 [Eh [Er [E1 Es1]]]] | [Eh [K | [K | [K | K]]]]]; cbv zeta in *.
@@ -116,33 +117,36 @@ Proof.
       * destruct K as [_ [K _]]; discriminate.
       * destruct K as [_ [K _]]; discriminate.
     + (* the function runs above the save point *)
-      destruct (body None s1') as [[[r0 l0] h0] s2] eqn:Eb.
+      destruct (body h s1') as [[[r0 l0] h0] s2] eqn:Eb.
       assert (F12 : flags_le (s_fl s1') (s_fl s2)) by (eapply HM; exact Eb).
-      (* the state after the function, whatever happens next, is below the final state *)
-      assert (Hfin : flags_le (s_fl s2) (s_fl s1) /\
+      assert (Hfin : h1 = h /\ flags_le (s_fl s2) (s_fl s1) /\
+                     (is_ok r0 = true -> r = ROk /\ o = OC true l0 CNil CNil /\ s1 = s2) /\
                      (is_ok r0 = false -> fault (length (s_ops s2)) = false /\
-                        exists h2, h_sp E C fault false (NGen g) None s2 = (h2, s1) /\ h1 = h2 /\ r = r0
+                        exists h2, h_sp E C fault false (NGen g) h s2 = (h2, s1) /\ r = r0
                                    /\ o = OC true l0 (cls_of r0) (cls_of r0))).
       { destruct r0.
-        - inversion H; subst. split; [apply flags_le_refl | discriminate].
+        - inversion H; subst. split; [reflexivity|]. split; [apply flags_le_refl|].
+          split; [intros _; repeat split; reflexivity | discriminate].
         - destruct (fault (length (s_ops s2))) eqn:Ef.
-          + destruct (h_sp E C fault false (NGen g) None (flag_rb s2)) as [h2 s3] eqn:Er.
+          + destruct (h_sp E C fault false (NGen g) h (flag_rb s2)) as [h2 s3] eqn:Er.
             inversion H; subst. apply h_sp_flags in Er. destruct Er as [Er _].
             cbn in Er. rewrite (Er eq_refl) in Hrb. discriminate.
-          + destruct (h_sp E C fault false (NGen g) None s2) as [h2 s3] eqn:Er.
-            inversion H; subst. split; [eapply h_sp_flags; exact Er|].
+          + destruct (h_sp E C fault false (NGen g) h s2) as [h2 s3] eqn:Er.
+            inversion H; subst. split; [reflexivity|]. split; [eapply h_sp_flags; exact Er|].
+            split; [discriminate|].
             intros _. split; [reflexivity|]. eexists. split; [first [exact Er | reflexivity]|]. repeat split; reflexivity.
         - destruct (fault (length (s_ops s2))) eqn:Ef.
-          + destruct (h_sp E C fault false (NGen g) None (flag_rb s2)) as [h2 s3] eqn:Er.
+          + destruct (h_sp E C fault false (NGen g) h (flag_rb s2)) as [h2 s3] eqn:Er.
             inversion H; subst. apply h_sp_flags in Er. destruct Er as [Er _].
             cbn in Er. rewrite (Er eq_refl) in Hrb. discriminate.
-          + destruct (h_sp E C fault false (NGen g) None s2) as [h2 s3] eqn:Er.
-            inversion H; subst. split; [eapply h_sp_flags; exact Er|].
+          + destruct (h_sp E C fault false (NGen g) h s2) as [h2 s3] eqn:Er.
+            inversion H; subst. split; [reflexivity|]. split; [eapply h_sp_flags; exact Er|].
+            split; [discriminate|].
             intros _. split; [reflexivity|]. eexists. split; [first [exact Er | reflexivity]|]. repeat split; reflexivity. }
-      destruct Hfin as [F2f Hfail].
+      clear H. destruct Hfin as [Hh1 [F2f [Hok Hfail]]]. split; [exact Hh1|]. clear Hh1.
       assert (Hrb2 : x_rb (s_fl s2) = false) by (destruct F2f as [F _]; eapply le_false; eassumption).
-      assert (Hdr2 : x_drop (s_fl s2) = false) by (destruct F2f as [_ [F _]]; eapply le_false; eassumption).
-      assert (Hdr1 : x_drop (s_fl s1') = false) by (destruct F12 as [_ [F _]]; eapply le_false; eassumption).
+      assert (Hdr2 : x_drop (s_fl s2) = false) by (destruct F2f as [_ F]; eapply le_false; eassumption).
+      assert (Hdr1 : x_drop (s_fl s1') = false) by (destruct F12 as [_ F]; eapply le_false; eassumption).
       destruct (h_sp_cases E savepoint_pushes rollback_to_exact C fault _ _ _ _ _ _ _ Es Htx' Hdr1)
         as [[e0 [Eh [Er [E1 Es1]]]] | [Eh [K | [K | [K | K]]]]]; cbv zeta in *;
         try (destruct K as [_ [K _]]; discriminate); try discriminate.
@@ -163,7 +167,8 @@ Proof.
       destruct Hdb1 as [Hdb1 [Hlog1 Hfl1]].
       destruct (is_ok r0) eqn:Eok.
       * (* returned nil: nothing more happens; the save point stays on the stack *)
-        destruct r0; try discriminate. inversion H; subst r o h1 s1. clear H.
+        destruct (Hok eq_refl) as [Er [Eo Es2]]. subst r o s1.
+        assert (Er0 : r0 = ROk) by (destruct r0; try discriminate; reflexivity). subst r0.
         left. exists t', (lc ++ (NGen g, t) :: local), l0. split; [reflexivity|].
         split; [|intros avail HS; rewrite unames_app; apply Sub_app_l; exact HS].
         unfold C04_Proofs2.Inv. rewrite ?En; cbn [negb].
@@ -179,11 +184,11 @@ Proof.
         split. { rewrite <- Hfl1; exact A9. }
         exists (nops ++ [(KSave, false)]). split. { rewrite B1, Hops1, <- app_assoc; reflexivity. }
         split. { rewrite forallb_app, B2; reflexivity. }
-        intros _ Hx. destruct (B3 eq_refl Hx) as (D1 & D2 & D3 & D4 & D5).
+        intros _. destruct (B3 eq_refl) as (D1 & D2 & D3 & D4 & D5).
         rewrite stmt_errs_OC, save_errs_OC, !countf_app. cbn [countf filter fst snd opkind_eqb andb length].
         repeat split; try assumption; lia.
       * (* failed: ROLLBACK TO the save point, which is still there *)
-        destruct (Hfail eq_refl) as [Ef2 [h2 [Er [Eh1 [Err Eo]]]]]. subst h1 r o.
+        destruct (Hfail eq_refl) as [Ef2 [h2 [Er [Err Eo]]]]. subst r o.
         assert (Hfresh : forall x, In x lc -> spname_eqb (NGen g) (fst x) = false).
         { intros [nm t0] Hx. destruct (A5 nm t0 Hx) as [[]|[[k [Ek Lk]]|[n Eu]]]; subst; cbn.
           - apply Nat.eqb_neq. lia.
@@ -211,7 +216,7 @@ Proof.
            exists ((KRbTo, fault (length (s_ops s2))) :: nops ++ [(KSave, false)]).
            split. { rewrite B1, Hops1. cbn [app]. rewrite <- app_assoc. reflexivity. }
            split. { cbn [forallb body_op fst]. rewrite forallb_app, B2; reflexivity. }
-           intros _ Hx. destruct (B3 eq_refl Hx) as (D1 & D2 & D3 & D4 & D5).
+           intros _. destruct (B3 eq_refl) as (D1 & D2 & D3 & D4 & D5).
            rewrite stmt_errs_OC, save_errs_OC. rewrite Ef2.
            change ((KRbTo, false) :: nops ++ [(KSave, false)]) with ([(KRbTo, false)] ++ nops ++ [(KSave, false)]).
            rewrite !countf_app. cbn [countf filter fst snd opkind_eqb andb length].
@@ -248,7 +253,7 @@ Proof. intros. change (o :: l2) with ([o] ++ l2). eapply inv_trans; eassumption.
 Lemma rb_back : forall f f', flags_le f f' -> x_rb f' = false -> x_rb f = false.
 Proof. intros f f' [F _] H; eapply le_false; eassumption. Qed.
 Lemma drop_back : forall f f', flags_le f f' -> x_drop f' = false -> x_drop f = false.
-Proof. intros f f' [_ [F _]] H; eapply le_false; eassumption. Qed.
+Proof. intros f f' [_ F] H; eapply le_false; eassumption. Qed.
 
 Lemma body_inv : forall p avail h s r l h' s' t local base,
   run_body E C fault p h s = (r, l, h', s') ->
@@ -297,51 +302,36 @@ Proof.
     { intros hc sc rc lc hc' sc' tc basec Eb Htc Hgc Hrc Hdc.
       apply (IHb [] hc sc rc lc hc' sc' tc [] basec Eb Htc (sub_nil _) Hscb Hgc Hrc Hdc). }
     pose proof (run_body_flags E C fault b) as HMB.
-    (* continuing with k from a state s1x that differs from s1 at most by the x_spign flag *)
-    assert (Hcont : forall s1x r1 l1 h2 s2,
-              run_body E C fault k h1 s1x = (r1, l1, h2, s2) ->
+    (* one step (the nested call), whatever it returned, leaves the enclosing handle as it was *)
+    assert (Hstep : x_rb (s_fl s1) = false -> x_drop (s_fl s1) = false ->
+              h1 = h /\ exists t1 local1, Inv base true h s t local [o] h s1 t1 local1 /\ Sub avail (unames local1)).
+    { intros R D.
+      destruct (nested_step E savepoint_pushes rollback_to_exact C fault _ HBS HMB _ _ _ _ _ _ _ _ _ En Htx Hg R D)
+        as [Eh [[t1 [local1 [l0 [Eo [St HSp]]]]] | [e' [Er [Eo St]]]]].
+      - split; [exact Eh|]. exists t1, local1. split; [exact St | apply HSp; exact HS].
+      - split; [exact Eh|]. exists t, local. split; [exact St | exact HS]. }
+    (* continuing with k *)
+    assert (Hcont : forall r1 l1 h2 s2,
+              run_body E C fault k h1 s1 = (r1, l1, h2, s2) ->
               (r1, o :: l1, h2, s2) = (r, l, h', s') ->
-              (x_rb (s_fl s1x) = false -> x_drop (s_fl s1x) = false ->
-                 exists t1 local1, Inv base true h s t local [o] h1 s1x t1 local1 /\ Sub avail (unames local1)) ->
               exists t' local', Inv base (is_ok r) h s t local l h' s' t' local').
-    { intros s1x r1 l1 h2 s2 Ek Eq Hst. inversion Eq; subst r1 l h2 s2. clear Eq.
+    { intros r1 l1 h2 s2 Ek Eq. inversion Eq; subst r1 l h2 s2. clear Eq.
       pose proof (run_body_flags E C fault k _ _ _ _ _ _ Ek) as Fk.
-      destruct (Hst (rb_back _ _ Fk Hrb) (drop_back _ _ Fk Hdr)) as [t1 [local1 [St HS1]]].
+      destruct (Hstep (rb_back _ _ Fk Hrb) (drop_back _ _ Fk Hdr)) as [Eh [t1 [local1 [St HS1]]]]. subst h1.
       pose proof St as (A1 & A2 & A3 & _).
       destruct (IHk avail _ _ _ _ _ _ _ _ _ Ek A1 HS1 Hsck A3 Hrb Hdr) as [t' [local' HI]].
       exists t', local'. eapply inv_trans_cons; eassumption. }
-    assert (Hstep : x_rb (s_fl s1) = false -> x_drop (s_fl s1) = false ->
-              (exists t1 local1 l0, o = OC true l0 (cls_of r0) (cls_of r0) /\ Inv base true h s t local [o] h1 s1 t1 local1
-                 /\ (forall avail, Sub avail (unames local) -> Sub avail (unames local1)))
-              \/ (exists e, r0 = RErr e /\ o = OC false [] CNil (CErr e) /\ Inv base false h s t local [o] h1 s1 t local)).
-    { intros R D. eapply nested_step; eassumption. }
+    assert (Hret : (r0, [o], h1, s1) = (r, l, h', s') ->
+              exists t' local', Inv base (is_ok r) h s t local l h' s' t' local').
+    { intro Eq. inversion Eq; subst r l h' s'. clear Eq.
+      destruct (Hstep Hrb Hdr) as [Eh [t1 [local1 [St _]]]]. subst h1.
+      exists t1, local1. destruct (is_ok r0); [exact St | eapply inv_ok_false; exact St]. }
     destruct r0 as [|e|q].
-    + destruct (run_body E C fault k h1 s1) as [[[r1 l1] h2] s2] eqn:Ek.
-      eapply Hcont; [exact Ek | exact H |]. intros R D.
-      destruct (Hstep R D) as [[t1 [local1 [l0 [Eo [St HSp]]]]] | [e [Er _]]]; [|discriminate].
-      exists t1, local1. split; [exact St | apply HSp; exact HS].
-    + destruct chk.
-      * inversion H; subst r l h' s'. clear H.
-        destruct (Hstep Hrb Hdr) as [[t1 [local1 [l0 [Eo [St HSp]]]]] | [e' [Er [Eo St]]]].
-        -- exists t1, local1. eapply inv_ok_false; exact St.
-        -- exists t, local. exact St.
-      * match type of H with context [run_body E C fault k h1 ?sx] => set (s1x := sx) in * end.
-        destruct (run_body E C fault k h1 s1x) as [[[r1 l1] h2] s2] eqn:Ek.
-        eapply Hcont; [exact Ek | exact H |]. intros R D.
-        assert (Rs : x_rb (s_fl s1) = false) by (subst s1x; destruct o as [| | | |[|]]; exact R).
-        assert (Ds : x_drop (s_fl s1) = false) by (subst s1x; destruct o as [| | | |[|]]; exact D).
-        destruct (Hstep Rs Ds) as [[t1 [local1 [l0 [Eo [St HSp]]]]] | [e' [Er [Eo St]]]].
-        -- exists t1, local1. subst s1x. rewrite Eo. rewrite Eo in St. split; [exact St | apply HSp; exact HS].
-        -- exists t, local. subst s1x. rewrite Eo. rewrite Eo in St.
-           split; [eapply inv_set_spign; exact St | exact HS].
-    + destruct rcv.
-      * destruct (run_body E C fault k h1 s1) as [[[r1 l1] h2] s2] eqn:Ek.
-        eapply Hcont; [exact Ek | exact H |]. intros R D.
-        destruct (Hstep R D) as [[t1 [local1 [l0 [Eo [St HSp]]]]] | [e' [Er _]]]; [|discriminate].
-        exists t1, local1. split; [exact St | apply HSp; exact HS].
-      * inversion H; subst r l h' s'. clear H.
-        destruct (Hstep Hrb Hdr) as [[t1 [local1 [l0 [Eo [St HSp]]]]] | [e' [Er _]]]; [|discriminate].
-        exists t1, local1. eapply inv_ok_false; exact St.
+    + destruct (run_body E C fault k h1 s1) as [[[r1 l1] h2] s2] eqn:Ek. eapply Hcont; [reflexivity | exact H].
+    + destruct chk; [apply Hret; exact H|].
+      destruct (run_body E C fault k h1 s1) as [[[r1 l1] h2] s2] eqn:Ek. eapply Hcont; [reflexivity | exact H].
+    + destruct rcv; [|apply Hret; exact H].
+      destruct (run_body E C fault k h1 s1) as [[[r1 l1] h2] s2] eqn:Ek. eapply Hcont; [reflexivity | exact H].
   - (* Save *)
     destruct (h_sp E C fault true (NUser n) h s) as [h1 s1] eqn:Es.
     destruct h1 as [e|].
